@@ -428,13 +428,14 @@ pub fn build(quick: bool) -> Check {
     for d in if quick { 5..=6 } else { 5..=7 } {
         families.push(Box::new(SeqFamily { alpha: stmts.clone(), depth: d, label: "statement-command-sequences" }));
     }
+    families.push(Box::new(super::soak::Soak { label: "text-and-even", lens: super::soak::lens(quick), mixes: vec![super::soak::Mix::Text, super::soak::Mix::Even, super::soak::Mix::Silent], opts: super::soak::opts_all().into_iter().take(2).collect() }));
     families.push(Box::new(UseFamily { spellings: use_spellings() }));
     families.push(Box::new(IdPairs));
     families.push(Box::new(Utf8Offsets));
     Check {
         id: "C02",
         level: "model_checking",
-        rule: format!("all command sequences of length <= {} over an alphabet of {} commands (near-miss prefixes, invalid UTF-8, statement ids at width boundaries, COM_INIT_DB names with edge whitespace/backticks/semicolons, quit mid-sequence) and of length <= 6 (thorough: 7) over 8 statement commands (two statements of different shape prepared / executed / closed in every order), pipelined on one connection; every USE spelling of the stated grammar in 3 positions; every ordered pair of statement ids from a 24-value palette prepared, executed and closed in both orders; USE names ending/starting with every character U+00C0..U+00FF and 3-/4-byte characters; query / prepare / init-db / USE texts with a multi-byte character at every byte offset 0..12. Oracle: routing model (exact callback log, run_on result, strict decode of all replies). Non-trivial = sequence mixes at least two command kinds.", if quick {4} else {5}, n),
+        rule: format!("all command sequences of length <= {} over an alphabet of {} commands (near-miss prefixes, invalid UTF-8, statement ids at width boundaries, COM_INIT_DB names with edge whitespace/backticks/semicolons, quit mid-sequence) and of length <= 6 (thorough: 7) over 8 statement commands (two statements of different shape prepared / executed / closed in every order), pipelined on one connection; every USE spelling of the stated grammar in 3 positions; every ordered pair of statement ids from a 24-value palette prepared, executed and closed in both orders; USE names ending/starting with every character U+00C0..U+00FF and 3-/4-byte characters; query / prepare / init-db / USE texts with a multi-byte character at every byte offset 0..12. Long scripted sessions: 130..4099 (thorough: up to 131101) ordinary commands of every kind on one connection in up to six mixes (even, prepare/close churn with growing ids, executions, long-data chunks, unanswered commands, text and library-answered commands) under several client/transport behaviours (pipelined, request ids advancing by 7, lock-step, 1..4093-byte reads, 7/11-byte writes), generated by a fixed rule, kept valid with the registry model and judged on the complete trace (callbacks with arguments, result, strict decode of every reply with its sequence ids). Oracle: routing model (exact callback log, run_on result, strict decode of all replies). Non-trivial = sequence mixes at least two command kinds.", if quick {4} else {5}, n),
         assumptions: vec![
             "for text that is not valid UTF-8 the property only says it is never handed to the shim: both 'connection ends with an error' and 'command skipped' are accepted".into(),
             "mixed-case spellings (Select @@x, Use db) are not in the alphabet because the property does not say how they route".into(),
@@ -443,6 +444,6 @@ pub fn build(quick: bool) -> Check {
         exhaustive: true,
         caps_hit: vec![],
         families,
-        required: vec!["utf8_offsets", "id_pairs", "sequences_with_invalid_utf8", "sequences_ending_in_error", "use_spellings_run"],
+        required: vec!["soak_sessions", "utf8_offsets", "id_pairs", "sequences_with_invalid_utf8", "sequences_ending_in_error", "use_spellings_run"],
     }
 }
